@@ -135,7 +135,88 @@ fn one_stream(acc: &mut Acc, ops: &[Op], alpha: &[String], how: &str) {
     }
 }
 
+/// One stream that uses both tables of the per-stream state: deduplicated strings and tracked objects are numbered
+/// independently of each other (a string's id does not move because an object was offered in between).
+fn strings_and_tracked_objects(acc: &mut Acc) {
+    struct Obj(u8);
+    let (a, b) = (Obj(1), Obj(2));
+    acc.case(Some(0x09_0b1ec7));
+    let written = monitored(None, || {
+        let mut sc = SerializationContext::new(Vec::new());
+        let mut ds = |sc: &mut SerializationContext<Vec<u8>>, s: &str| DeduplicatedString(s.to_string()).serialize(sc).map_err(|e| classify(&e));
+        ds(&mut sc, "x")?; // string 1
+        let new_a = sc.store_ref_or_object(&a).map_err(|e| classify(&e))?; // object 1: new
+        ds(&mut sc, "y")?; // string 2
+        let new_b = sc.store_ref_or_object(&b).map_err(|e| classify(&e))?; // object 2: new
+        let again_a = sc.store_ref_or_object(&a).map_err(|e| classify(&e))?; // object 1 again
+        ds(&mut sc, "x")?; // string 1 again
+        ds(&mut sc, "z")?; // string 3
+        let again_b = sc.store_ref_or_object(&b).map_err(|e| classify(&e))?;
+        ds(&mut sc, "y")?; // string 2 again
+        ds(&mut sc, "z")?; // string 3 again
+        let _ = (a.0, b.0);
+        Ok((sc.into_output(), [new_a, new_b, again_a, again_b]))
+    })
+    .0;
+    use refmodel::enc::vu_bytes;
+    let want: Vec<u8> = [
+        &plain_bytes("x")[..],
+        &vu_bytes(0)[..],
+        &plain_bytes("y")[..],
+        &vu_bytes(0)[..],
+        &vu_bytes(1)[..],
+        &vi_bytes(-1)[..],
+        &plain_bytes("z")[..],
+        &vu_bytes(2)[..],
+        &vi_bytes(-2)[..],
+        &vi_bytes(-3)[..],
+    ]
+    .concat();
+    let ok_write = matches!(&written, Call::Ok((b, flags)) if *b == want && *flags == [true, true, false, false]);
+    // … and the reader numbers them the same way: strings are registered as they are read, objects when the client says so
+    let read = monitored(None, || {
+        let mut dc = DeserializationContext::new(&want);
+        let mut out: Vec<String> = Vec::new();
+        let mut ds = |dc: &mut DeserializationContext<'_>, out: &mut Vec<String>| DeduplicatedString::deserialize(dc).map(|d| out.push(d.0)).map_err(|e| classify(&e));
+        let (oa, ob) = (Obj(1), Obj(2));
+        ds(&mut dc, &mut out)?;
+        let r1 = dc.try_read_ref().map(|r| r.is_some()).map_err(|e| classify(&e))?; // new object
+        dc.state_mut().store_ref(&oa);
+        ds(&mut dc, &mut out)?;
+        let r2 = dc.try_read_ref().map(|r| r.is_some()).map_err(|e| classify(&e))?; // new object
+        dc.state_mut().store_ref(&ob);
+        let r3 = dc.try_read_ref().map(|r| r.map(|x| x.downcast_ref::<Obj>().map(|o| o.0))).map_err(|e| classify(&e))?;
+        ds(&mut dc, &mut out)?;
+        ds(&mut dc, &mut out)?;
+        let r4 = dc.try_read_ref().map(|r| r.map(|x| x.downcast_ref::<Obj>().map(|o| o.0))).map_err(|e| classify(&e))?;
+        ds(&mut dc, &mut out)?;
+        ds(&mut dc, &mut out)?;
+        Ok((out, r1, r2, r3, r4))
+    })
+    .0;
+    let ok_read = matches!(&read, Call::Ok((out, false, false, Some(Some(1)), Some(Some(2)))) if out == &["x", "y", "x", "z", "y", "z"]);
+    if ok_write && ok_read {
+        acc.count("streams_with_strings_and_tracked_objects_ok");
+    } else {
+        acc.violation(
+            "C09|strings_and_tracked_objects".to_string(),
+            J::obj()
+                .with("check", J::s("C09"))
+                .with("mode", J::s("content"))
+                .with("expected_bytes", J::s(hex(&want)))
+                .with("written", J::s(match &written {
+                    Call::Ok((b, f)) => format!("{} offers {f:?}", hex(b)),
+                    o => o.class(),
+                }))
+                .with("read_back", J::s(format!("{read:?}").chars().take(300).collect::<String>())),
+        );
+    }
+}
+
 pub fn c09(ctx: &mut Ctx, acc: &mut Acc) -> i32 {
+    if ctx.shard == 0 {
+        strings_and_tracked_objects(acc);
+    }
     let alpha = alphabet();
     let options: Vec<Op> = (0..alpha.len()).flat_map(|s| [Op { dedup: true, s }, Op { dedup: false, s }]).collect();
     // exhaustive short patterns
